@@ -52,7 +52,7 @@ theorem denormalizeRef_eq {base c : URL} (hb : CanonBase base) (hc : CanonTarget
     · simp [Ref.classify, hpne] at h
   unfold denormalizeRef denormalizeRefId
   rw [hnew, if_neg hcond]
-  simp only [rebase, hurl, hc.scheme, hc.host]
+  simp only [rebase, hurl, hc.scheme, hc.host, hc.query, hb.query]
   simp [Ref.new, Ref.classify]
 
 example : CanonBase ⟨"http", "h.com", "/r/root.json", "", ""⟩ ∧
@@ -203,9 +203,16 @@ theorem root_path_trap :
   refine ⟨⟨by decide, by decide, by decide, rfl, rfl⟩, ⟨rfl, rfl, by decide, by decide, rfl, by decide, by decide⟩,
     by decide, by decide, by decide⟩
 
-/-- `rebase` never copies the query: a target with a query loses it (hence `query = ""` in `CanonTarget`). -/
-theorem query_dropped :
+/-- A target in a document that differs from the root document by its query stays absolute (before the repair
+61036d6 in /repo `rebase` compared scheme and host only and this target was written `other.json#/definitions/a`,
+its query lost: found by the reference-graph family with documents told apart by a query). -/
+theorem other_query_stays_absolute :
     denormalizeRef ⟨"http", "h.com", "/r/other.json", "v=2", "/definitions/a"⟩ ⟨"http", "h.com", "/r/root.json", "", ""⟩
-      = ⟨"", "", "other.json", "", "/definitions/a"⟩ := by decide
+      = ⟨"http", "h.com", "/r/other.json", "v=2", "/definitions/a"⟩ := by decide
+
+/-- the same path as the root document, another query: not the root document -/
+theorem same_path_other_query_is_another_document :
+    denormalizeRef ⟨"http", "h.com", "/r/root.json", "v=2", "/definitions/a"⟩ ⟨"http", "h.com", "/r/root.json", "", ""⟩
+      = ⟨"http", "h.com", "/r/root.json", "v=2", "/definitions/a"⟩ := by decide
 
 end SpecModel.Props.C03
